@@ -6,7 +6,7 @@
 
 use crate::case::*;
 use crate::flavor::*;
-use crate::types::{drops_of, pat, TYPES};
+use crate::types::{drops_of, pat, zst_drops, TYPES};
 use rarena_allocator::{
     verif::{self},
     ArenaPosition, Error, Freelist, Options,
@@ -158,6 +158,8 @@ pub struct H {
     pub via: usize,
     pub detached: bool,
     pub drop_id: Option<u64>,
+    /// zero-sized drop type: number of drops observed while the value was written into the handle (0 or 1)
+    pub zst_written: Option<u64>,
     pub id: u32,
 }
 
@@ -315,6 +317,49 @@ pub fn res_kind<T>(r: &Result<T, Error>) -> &'static str {
     }
 }
 
+/// the path-builder constructors return `Either<builder error, io::Error>`; the harness's builder never fails
+pub fn either_io(e: either::Either<std::io::Error, std::io::Error>) -> std::io::Error {
+    match e {
+        either::Either::Left(e) | either::Either::Right(e) => e,
+    }
+}
+
+/// File-open flags a caller may have left set on the `Options` it passes to a READ-ONLY open (`map`,
+/// `map_copy_read_only` and their path-builder forms): the implementation clears every one of them, so such an
+/// open must behave exactly like one without them. Bit 0 truncate, 1 append, 2 create, 3 create_new, 4 write.
+pub fn ro_flags(o: Options, flags: u8) -> Options {
+    let o = if flags & 16 != 0 { o.with_write(true) } else { o };
+    let o = if flags & 1 != 0 { o.with_truncate(true) } else { o };
+    let o = if flags & 2 != 0 { o.with_append(true) } else { o };
+    let o = if flags & 4 != 0 { o.with_create(true) } else { o };
+    if flags & 8 != 0 { o.with_create_new(true) } else { o }
+}
+
+pub const OPEN_NAMES: [&str; 8] = [
+    "map_mut", "map_copy", "map", "map_copy_read_only",
+    "map_mut_with_path_builder", "map_copy_with_path_builder", "map_with_path_builder", "map_copy_read_only_with_path_builder",
+];
+
+/// One of the eight open variants of an existing file: mode 0 map_mut, 1 map_copy, 2 map, 3 map_copy_read_only;
+/// `pb` selects the `*_with_path_builder` form (the builder itself never fails). Write access is requested for
+/// the writable modes only.
+pub fn open_variant<A: Flavor>(o: Options, mode: u8, pb: bool, path: &std::path::Path) -> std::io::Result<A> {
+    let pp = path.to_path_buf();
+    let b = move || Ok::<_, std::io::Error>(pp);
+    unsafe {
+        match (mode & 3, pb) {
+            (0, false) => o.with_write(true).map_mut::<A, _>(path),
+            (1, false) => o.with_write(true).map_copy::<A, _>(path),
+            (2, false) => o.map::<A, _>(path),
+            (_, false) => o.map_copy_read_only::<A, _>(path),
+            (0, true) => o.with_write(true).map_mut_with_path_builder::<A, _, _>(b).map_err(either_io),
+            (1, true) => o.with_write(true).map_copy_with_path_builder::<A, _, _>(b).map_err(either_io),
+            (2, true) => o.map_with_path_builder::<A, _, _>(b).map_err(either_io),
+            (_, true) => o.map_copy_read_only_with_path_builder::<A, _, _>(b).map_err(either_io),
+        }
+    }
+}
+
 fn overlaps(a: (usize, usize), b: (usize, usize)) -> bool {
     a.0 < b.1 && b.0 < a.1
 }
@@ -354,7 +399,14 @@ impl<A: Flavor> World<A> {
                     .with_write(true)
                     .with_offset(cfg.off_pages as u64 * page as u64);
                 let o = if cfg.create_new { o.with_create_new(true) } else { o.with_create(true) };
-                let r = guard("map_mut(create)", "C16", || unsafe { o.map_mut::<A, _>(&p) })?;
+                let r = guard("map_mut(create)", "C16", || unsafe {
+                    if cfg.pb {
+                        let pp = p.clone();
+                        o.map_mut_with_path_builder::<A, _, std::io::Error>(move || Ok(pp)).map_err(either_io)
+                    } else {
+                        o.map_mut::<A, _>(&p)
+                    }
+                })?;
                 path = Some(p);
                 match r {
                     Ok(a) => a,
@@ -417,7 +469,7 @@ impl<A: Flavor> World<A> {
         let reserved_expect = arena.reserved_slice().to_vec();
         let hs = live
             .iter()
-            .map(|l| H { obj: None, kind: HKind::Bytes, ty: 0, off: l.off, cap: l.cap, boff: l.off, bcap: l.cap, expect: l.expect.clone(), embeds: 0, via: 0, detached: true, drop_id: None, id: l.id })
+            .map(|l| H { obj: None, kind: HKind::Bytes, ty: 0, off: l.off, cap: l.cap, boff: l.off, bcap: l.cap, expect: l.expect.clone(), embeds: 0, via: 0, detached: true, drop_id: None, zst_written: None, id: l.id })
             .collect();
         let mut w = World {
             cfg: cfg.clone(),
@@ -897,9 +949,9 @@ impl<A: Flavor> World<A> {
                 ensure!(pre == post, "C05", "flush-side-effect", "flush variant {which} changed state {pre:?} -> {post:?}");
                 res = "ok".into();
             }
-            Op::Reopen { mode, cap, create } => {
+            Op::Reopen { mode, cap, create, pb, flags } => {
                 if self.cfg.backend == Backend::File {
-                    self.do_reopen(*mode, *cap, *create)?;
+                    self.do_reopen(*mode, *cap, *create, *pb, *flags)?;
                     res = "ok".into();
                 }
             }
@@ -1029,16 +1081,33 @@ impl<A: Flavor> World<A> {
                     // a zero-sized typed owned handle may embed an arena clone; measure and keep it so refs() stays modelled
                     let embeds = post.refs - pre.refs.min(post.refs);
                     let pre2 = self.snap();
-                    let obj = guard_obj.0.take().unwrap();
+                    let mut obj = guard_obj.0.take().unwrap();
+                    // a zero-sized value with a destructor (guard / token type): written through the handle it must
+                    // have been dropped exactly once by the time its non-detached handle is gone (C13) - whether the
+                    // implementation drops it at once or with the handle is its own business
+                    let mut zst_written = None;
+                    if kind == HKind::Typed && t.needs_drop {
+                        let b = zst_drops();
+                        guard("write(zero-size drop value)", "C13", || obj.write(0))?;
+                        let dw = zst_drops() - b;
+                        ensure!(dw <= 1, "C13", "zst-value-drop-count", "writing one zero-sized drop value ran its destructor {dw} times");
+                        zst_written = Some(dw);
+                        self.classes.insert("zst-drop-value-written");
+                    }
                     if embeds == 0 || self.mode.drop_zero_now {
+                        let b = zst_drops();
                         guard("drop(zero-size handle)", "C01", move || drop(obj))?;
                         let post2 = self.snap();
                         let mut pre2 = pre2;
                         pre2.refs -= embeds;
                         ensure!(pre2 == post2, "C01", "zero-size-drop-effect", "dropping a zero-sized handle changed state {pre2:?} -> {post2:?}");
+                        if let Some(dw) = zst_written {
+                            let total = dw + (zst_drops() - b);
+                            ensure!(total == 1, "C13", "zst-value-drop-count", "a zero-sized drop value written into alloc::<{}>() (owned={owned}) was dropped {total} times by the time its handle was dropped", t.name);
+                        }
                     } else {
                         let id = self.fresh_id();
-                        self.hs.push(H { obj: Some(obj), kind, ty, off: 0, cap: 0, boff: 0, bcap: 0, expect: vec![], embeds, via, detached: false, drop_id: None, id });
+                        self.hs.push(H { obj: Some(obj), kind, ty, off: 0, cap: 0, boff: 0, bcap: 0, expect: vec![], embeds, via, detached: false, drop_id: None, zst_written, id });
                     }
                     return Ok((res, Some((off, cap, boff, bcap))));
                 }
@@ -1141,7 +1210,7 @@ impl<A: Flavor> World<A> {
                 );
                 let id = self.fresh_id();
                 let expect = mem[off..off + cap].to_vec();
-                let mut h = H { obj: None, kind, ty, off, cap, boff, bcap, expect, embeds, via, detached: false, drop_id: None, id };
+                let mut h = H { obj: None, kind, ty, off, cap, boff, bcap, expect, embeds, via, detached: false, drop_id: None, zst_written: None, id };
                 let mut obj = guard_obj.0.take().unwrap();
                 if t.needs_drop && kind == HKind::Typed {
                     obj.write(id);
@@ -1343,8 +1412,14 @@ impl<A: Flavor> World<A> {
             self.classes.insert("drop-detached");
             return Ok(());
         }
+        let zb = zst_drops();
         guard("drop(handle)", "C13", move || drop(obj))?;
         let post = self.snap();
+        if let Some(dw) = h.zst_written {
+            let total = dw + (zst_drops() - zb);
+            ensure!(total == 1, "C13", "zst-value-drop-count", "a zero-sized drop value written into an owned handle was dropped {total} times by the time the handle was dropped");
+            self.classes.insert("value-dropped-via-handle");
+        }
         ensure!(post.refs + embeds == pre.refs, "C13", "refs-handle-drop", "refs() {} -> {} after dropping a handle embedding {embeds} arena value(s)", pre.refs, post.refs);
         if let Some(id) = drop_id {
             ensure!(drops_of(id) == before + 1, "C13", "value-drop-count", "value of a dropped non-detached handle was dropped {} times", drops_of(id) - before);
@@ -1613,7 +1688,7 @@ impl<A: Flavor> World<A> {
         Ok(())
     }
 
-    fn do_reopen(&mut self, mode: u8, capsel: u8, create: bool) -> R {
+    fn do_reopen(&mut self, mode: u8, capsel: u8, create: bool, pb: bool, flags: u8) -> R {
         self.detach_all()?;
         let a = self.a();
         let closing = self.snap();
@@ -1631,7 +1706,7 @@ impl<A: Flavor> World<A> {
                 let now = std::fs::read(&path).unwrap_or_default();
                 let n = sv.file.len().min(now.len());
                 ensure!(now.len() >= sv.file.len() && now[..n] == sv.file[..n], "C05", "cow-leaked", "file contents changed during a map_copy session");
-                self.hs = sv.ranges.iter().map(|r| H { obj: None, kind: r.0, ty: r.1, off: r.2, cap: r.3, boff: r.4, bcap: r.5, expect: r.6.clone(), embeds: 0, via: 0, detached: true, drop_id: None, id: r.7 }).collect();
+                self.hs = sv.ranges.iter().map(|r| H { obj: None, kind: r.0, ty: r.1, off: r.2, cap: r.3, boff: r.4, bcap: r.5, expect: r.6.clone(), embeds: 0, via: 0, detached: true, drop_id: None, zst_written: None, id: r.7 }).collect();
                 self.dead = sv.dead.clone();
                 self.high_water = sv.high_water;
                 self.classes.insert("reopen-after-cow");
@@ -1654,15 +1729,15 @@ impl<A: Flavor> World<A> {
         if create && mode < 2 {
             self.classes.insert("reopen-with-create");
         }
-        let what = ["map_mut", "map_copy", "map", "map_copy_read_only"][mode as usize];
-        let r = guard(what, "C05", || unsafe {
-            match mode {
-                0 => o.with_write(true).map_mut::<A, _>(&path),
-                1 => o.with_write(true).map_copy::<A, _>(&path),
-                2 => o.map::<A, _>(&path),
-                _ => o.map_copy_read_only::<A, _>(&path),
-            }
-        })?;
+        if pb {
+            self.classes.insert("reopen-via-path-builder");
+        }
+        let o = if mode >= 2 { ro_flags(o, flags) } else { o };
+        if mode >= 2 && flags & 31 != 0 {
+            self.classes.insert("reopen-ro-with-write-flags");
+        }
+        let what = OPEN_NAMES[mode as usize + 4 * usize::from(pb)];
+        let r = guard(what, "C05", || open_variant::<A>(o, mode, pb, &path))?;
         let arena = match r {
             Ok(a) => a,
             Err(e) => return Err(viol!("C05", "reopen-failed", "{what} of a valid arena file (len {file_len}, mapping offset {off}) failed: {e}")),
